@@ -424,6 +424,10 @@ class SchemaGroup(SchemaSet):
                 field = tag_fields[t]
 
                 if isinstance(field, SchemaField):
+                    if fmsg.is_group(t):
+                        raise FIXMessageError(
+                            f"fixmessage={groups}, tag={t} must be a tag, got group"
+                        )
                     field.validate_value(v)
                 else:
                     # Nested group!?
